@@ -37,6 +37,15 @@ func streamLife(c *corrOut, r *rng, n int, thorough bool) map[string]interface{}
 	if len(all) > n {
 		all = all[:n]
 	}
+	// termination while Run is still starting up (always run): inside the writer of the start-up mode
+	// sequences (the renderer exists but is not started), inside Init, inside the first View
+	for _, ca := range []string{"kill", "ctx"} {
+		for _, st := range []string{"startup-write", "in-init", "first-view"} {
+			for _, in := range []string{"nil", "pipe", "blocking"} {
+				all = append(all, termScenario{ca, st, "none", in})
+			}
+		}
+	}
 	type res struct {
 		s   termScenario
 		out string
@@ -60,7 +69,11 @@ func streamLife(c *corrOut, r *rng, n int, thorough bool) map[string]interface{}
 		<-done
 	}
 	for _, x := range results {
-		c.emit(fmt.Sprintf("%s %s %s %s", x.s.Cause, x.s.Strike, x.s.Pending, x.s.Input), x.out, x.s.Cause)
+		strike := x.s.Strike
+		if strike == "first-view" {
+			strike = "in-first-view"
+		}
+		c.emit(fmt.Sprintf("%s %s %s %s", x.s.Cause, strike, x.s.Pending, x.s.Input), x.out, x.s.Cause)
 	}
 	return nil
 }
